@@ -1,10 +1,12 @@
 use super::binding::{SoapBinding, SoapOperation};
 use crate::{
     error::{WriterError, WriterResult},
-    model::{TryFromNode, field::resolve_type},
+    model::{
+        TryFromNode,
+        field::{as_field_name, as_identifier, as_type_name, resolve_type},
+    },
     reader::WriteXml,
 };
-use inflector::cases::{pascalcase::to_pascal_case, snakecase::to_snake_case};
 use reqwest::Url;
 use std::{io, rc::Rc};
 
@@ -62,14 +64,15 @@ where
 {
     fn write_xml(&self, writer: &mut W) -> WriterResult<()> {
         // create a wrapping Rust struct for the service
-        writeln!(writer, "pub struct {} {{", self.name)?;
+        let service_name = as_identifier(&self.name);
+        writeln!(writer, "pub struct {service_name} {{")?;
         writeln!(writer, "    pub client: reqwest::Client,")?;
         writeln!(writer, "    pub location: String,")?;
         writeln!(writer, "    pub credentials: Option<(String, String)>,")?;
         writeln!(writer, "}}")?;
 
         // create an implementation for the service
-        writeln!(writer, "impl {} {{", self.name)?;
+        writeln!(writer, "impl {service_name} {{")?;
         writeln!(
             writer,
             "    pub fn new(credentials: Option<(String, String)>) -> Self {{"
@@ -97,9 +100,9 @@ where
     W: io::Write,
 {
     // generate an async fn for the operation
-    let rust_fn_name = to_snake_case(operation_name);
+    let rust_fn_name = as_field_name(operation_name);
     // the envelope structs are named after the PascalCase operation name (see the binding writer)
-    let envelope_prefix = to_pascal_case(operation_name);
+    let envelope_prefix = as_type_name(operation_name);
     let request_name = format!("{envelope_prefix}InputEnvelope");
     let response_name = operation
         .output
